@@ -125,6 +125,15 @@ func genBase(r *lib.Rng, nconn int, concrete bool, clean bool) *base {
 		b.nodes = append(b.nodes, o)
 		cur = o.Out
 	}
+	// some handlers do not return their argument but a fixed value of their declared type
+	for i := range b.nodes {
+		for _, h := range []*H{b.nodes[i].Pre, b.nodes[i].Post} {
+			if h != nil && r.Chance(1, 3) {
+				opts := optionsFor(h.Ty)
+				h.Ret = opts[r.Intn(len(opts))]
+			}
+		}
+	}
 	if r.Chance(5, 6) {
 		b.out = compatible(r, cur, concrete)
 	} else {
